@@ -147,6 +147,9 @@ def plan_calls(cases, tier, rng):
             for w in ws:
                 if not all(L.admits(decl.get(p), args[i], w) for i, p in enumerate(sh.params) if p not in lits):
                     continue
+                if w == 64 and any(a[0] == "big" and abs(a[2]) == 2 for a in args) and \
+                        any(a[0] == "int" and abs(a[2]) > 100 for a in args):
+                    continue    # 2**32+65 lies above the 8-bit images in the model but below their 64-bit realisation
                 fn = L.func_name(sh, vtag, lits, args)
                 pn = "P_%s%s" % (sh.name, L.lit_key(sh, lits, args))
                 if fn not in funcs:
